@@ -19,7 +19,8 @@ META = {
         'through a reference derived from a model-typed parameter - directly, or through a fresh container that stores a mutable '
         'part of the input (typed alias analysis; fresh copies list()/dict()/sorted()/comprehensions break the alias); R4 every '
         'open() on the add route is read-only, the decompression temp file is unlinked in a finally and tar contents are '
-        'extracted into a TemporaryDirectory context.'),
+        'extracted into a TemporaryDirectory context; R6 the package route and the single-file route recognise a resource by the '
+        'same content recognisers and neither adds a condition on the file name (guard sets of the accepting effects).'),
     'decides': ['sibling entry points', 'skip dominance', 'input never mutated', 'source files opened read-only / temp cleanup'],
     'not_decided': ['equality of stored content across supply routes'],
     'assumptions': ['annotations of model-typed parameters are truthful'],
@@ -559,10 +560,77 @@ def r5_per_item_state(ctx, res):
         raise AnalysisError('anchor vanished: per-item loops of _precheck / _add_lexical_resource')
 
 
+def r6_recognition_by_content(ctx, res):
+    """a resource is recognised by its content on every route: the package route (files of a directory) and the single-file
+    route apply the same recognisers and no route adds a condition on the file name.  Decided on the effect summaries of
+    wn/project.py: the guard sets of the effects that accept a file / a directory are exactly the content tests."""
+    import re as _re
+    from ..speccheck import view
+    recog = lambda txt: set(_re.findall(r'\b(\w+\.is_\w+)\(', txt)) - {'tarfile.is_tarfile'}   # noqa: E731
+    # single-file route: the branch of iterpackages that yields _ResourceOnlyPackage
+    iv = view(ctx, 'project', 'iterpackages')
+    ys = [r for r in iv.rows if r[0] == 'yield' and r[1].startswith('_ResourceOnlyPackage(')]
+    key = 'recognisers:single-file'
+    res.inst(key, iv.loc(), f'{len(ys)} accepting yield(s)')
+    if len(ys) != 1:
+        raise AnalysisError('anchor vanished: iterpackages no longer yields one _ResourceOnlyPackage for a plain file')
+    arg = ys[0][1][len('_ResourceOnlyPackage('):-1]
+    single = set()
+    for g in ys[0][2]:
+        if 'is_dir()' in g or 'is_tarfile(' in g:
+            continue
+        r = recog(g)
+        if not r or not all(_re.fullmatch(r'(?:[\w.]+\(' + _re.escape(arg) + r'\))(?: or [\w.]+\(' + _re.escape(arg) + r'\))*', g) for _ in [0]):
+            res.find(key, iv.loc(ys[0][4]), f'the single-file route accepts a file under `{g[:80]}`, which is not a disjunction of content '
+                                            f'recognisers applied to the (decompressed) file')
+        single |= r
+    # package route: files of a directory
+    tv = view(ctx, 'project', '_resource_file_type')
+    key = 'recognisers:package-file'
+    rets = [r for r in tv.rows if r[0] == 'return']
+    res.inst(key, tv.loc(), f'{len(rets)} returns')
+    pkg = set()
+    for k, t, g, c, e in rets:
+        for x in g:
+            if not _re.fullmatch(r'(?:not )?[\w.]+\.is_\w+\(path\)', x):
+                res.find(key, tv.loc(e), f'_resource_file_type decides under `{x[:80]}`, which is not a content recogniser applied to the path')
+            pkg |= recog(x)
+    key = 'recognisers:agree'
+    res.inst(key, tv.loc(), f'single file: {sorted(single)}; package file: {sorted(pkg)}')
+    if single != pkg or not single:
+        res.find(key, tv.loc(), f'the single-file route recognises resources with {sorted(single)} but the package route with {sorted(pkg)}: '
+                                f'the same file is accepted on one route and rejected on the other')
+    # every file of a package directory is classified, with no other filter
+    pv = view(ctx, 'project', '_package_directory_types')
+    apps = [r for r in pv.rows if r[0] == 'call' and _re.match(r'#\d+\.append\(', r[1])]
+    key = 'package-files:unfiltered'
+    res.inst(key, pv.loc(), f'{len(apps)} collecting effect(s)')
+    if len(apps) != 1 or not any(c.startswith('for ') and c.endswith('.iterdir()') for c in apps[0][3]):
+        raise AnalysisError('anchor vanished: _package_directory_types no longer collects the classified files of path.iterdir()')
+    for g in apps[0][2]:
+        if _re.fullmatch(r'[\w.]+\.is_dir\(\)', g) or _re.fullmatch(r'\(?.*\)? is not None', g) and ('is_lmf($1)' in g or '_resource_file_type($1)' in g):
+            continue
+        res.find(key, pv.loc(apps[0][4]), f'_package_directory_types only considers a file when `{g[:80]}`: files are filtered by something other '
+                                         f'than their content, so a package route can reject a resource the single-file route accepts')
+    for k, t, g, c, e in pv.rows:
+        if k in ('eval', 'call') and t.startswith('continue') or k == 'break':
+            res.find(key, pv.loc(e), '_package_directory_types leaves the directory loop early')
+    # packages of a collection: exactly the package directories
+    cv = view(ctx, 'project', 'Collection.packages')
+    apps = [r for r in cv.rows if r[0] == 'call' and _re.match(r'#\d+\.append\(Package\(\$1\)\)', r[1])]
+    key = 'collection-packages:unfiltered'
+    res.inst(key, cv.loc(), f'{len(apps)} collecting effect(s)')
+    if len(apps) != 1:
+        raise AnalysisError('anchor vanished: Collection.packages no longer collects Package(path) over the directory')
+    if set(apps[0][2]) != {'is_package_directory($1)'}:
+        res.find(key, cv.loc(apps[0][4]), f'Collection.packages keeps a directory when {sorted(apps[0][2])}; expected exactly is_package_directory(path)')
+
+
 RULES = [
     ('C07-R1', r1_sibling_entry_points, 5),
     ('C07-R2', r2_skip_dominance, 2),
     ('C07-R3', r3_input_not_modified, 40),
     ('C07-R4', r4_files, 8),
     ('C07-R5', r5_per_item_state, 2),
+    ('C07-R6', r6_recognition_by_content, 5),
 ]
